@@ -343,7 +343,7 @@ public:
 		}
 		else {
 			// filter out the easy stuff
-			if (a < b) { r = a; clear(); return; }
+			if (compare_magnitude(a, b) < 0) { r = a; clear(); return; } // |a| < |b|: quotient 0, remainder a
 
 			// determine first non-zero limbs
 			unsigned m{ 0 }, n{ 0 };
@@ -1148,6 +1148,8 @@ inline std::string to_hex(const einteger<BlockType>& a, bool wordMarker = true) 
 
 template<typename BlockType>
 inline bool operator==(const einteger<BlockType>& lhs, const einteger<BlockType>& rhs) {
+	if (lhs.iszero() && rhs.iszero()) return true; // zero has no sign
+	if (lhs.sign() != rhs.sign()) return false;
 	if (lhs.limbs() != rhs.limbs()) {
 		return false;
 	}
@@ -1167,21 +1169,20 @@ inline bool operator!=(const einteger<BlockType>& lhs, const einteger<BlockType>
 
 template<typename BlockType>
 inline bool operator< (const einteger<BlockType>& lhs, const einteger<BlockType>& rhs) {
-	unsigned ll = lhs.limbs();
-	unsigned rl = rhs.limbs();
-	if (ll < rl) return true;
-	if (ll > rl) return false;
-	for (unsigned b = ll - 1; b > 0; --b) {
-		BlockType l = lhs.block(b);
-		BlockType r = rhs.block(b);
-		if (l < r) return true;
-		else if (l == r) continue;
-		else return false;
+	// order of the signed values: negatives below zero below positives; a zero has no sign
+	bool lhsIsZero = lhs.iszero(), rhsIsZero = rhs.iszero();
+	if (lhsIsZero && rhsIsZero) return false;
+	bool lhsIsNeg = lhs.sign() && !lhsIsZero, rhsIsNeg = rhs.sign() && !rhsIsZero;
+	if (lhsIsNeg != rhsIsNeg) return lhsIsNeg;
+	// same sign: compare the magnitudes, limbs beyond the stored ones read as zero
+	unsigned n = (lhs.limbs() > rhs.limbs() ? lhs.limbs() : rhs.limbs());
+	int magnitude = 0;
+	for (unsigned b = n; b > 0; --b) {
+		BlockType l = lhs.block(b - 1);
+		BlockType r = rhs.block(b - 1);
+		if (l != r) { magnitude = (l < r ? -1 : 1); break; }
 	}
-	BlockType l = lhs.block(0);
-	BlockType r = rhs.block(0);
-	if (l < r) return true;
-	return false; // lhs and rhs are the same
+	return lhsIsNeg ? (magnitude > 0) : (magnitude < 0);
 }
 
 template<typename BlockType>
